@@ -302,6 +302,12 @@ Fixpoint spec_hist (c : cfg16) (m : fmap) (ops : list op16) (obs : list ob16) : 
        | None, AAdd _ _ => true
        | None, ARemove k => match mget k m with Some _ => true | None => false end
        | Some ENotExist, ARemove k => match mget k m with Some _ => false | None => true end
+       | Some EMaxLinks, AAdd k _ =>     (* only a directory that cannot shard may refuse, when full *)
+           (eff c (g_th c) =? 0) && g_dynamic c &&
+           match mget k m with
+           | None => (0 <? g_maxlinks c) && (g_maxlinks c <? Z.of_nat (List.length m) + 1)
+           | Some _ => false
+           end
        | Some _, _ => false
        end) &&
       spec_hist c m' ro rb
@@ -321,7 +327,7 @@ Definition ob16_eqb (a b : ob16) : bool :=
     and answered [obs]; a second fresh directory of the same configuration received the
     surviving entries in name order; [same_cid] = the two root CIDs are equal,
     [canon_hamt] = the canonical one is a HAMTShard.
-    [CNoFix]: marker used by the harness for nothing (keeps the type extensible). *)
+*)
 Inductive case16 :=
 | CRoot (c : cfg16) (tbl : table) (ops : list op16) (obs : list ob16) (same_cid : bool) (canon_hamt : bool).
 
